@@ -79,6 +79,7 @@ type c17Write struct {
 	Ext   [3]int `json:"e"`           // extent in blocks (blocks kinds: span along X, 1 in Y and Z)
 	Child bool   `json:"c,omitempty"` // issued in a child version (root is committed first)
 	ROI   bool   `json:"r,omitempty"` // restricted with ?roi=r (raw kinds only)
+	Erase bool   `json:"z,omitempty"` // the payload is all background (what "unwritten" reads as): erases earlier content
 }
 
 func (w c17Write) String() string {
@@ -88,6 +89,9 @@ func (w c17Write) String() string {
 	}
 	if w.ROI {
 		s += "/roi"
+	}
+	if w.Erase {
+		s += "/erase"
 	}
 	return s
 }
@@ -632,6 +636,9 @@ func (l *c17Live) write(wn int, w c17Write) error {
 	var url string
 	var body []byte
 	tmp := make([]byte, m.bpv)
+	if w.Erase {
+		wn = 0 // the value of "unwritten": background bytes in the payload, background expected afterwards
+	}
 	switch w.Kind {
 	case "raw", "rawmut":
 		off := [3]int{w.Org[0] * bs[0], w.Org[1] * bs[1], w.Org[2] * bs[2]}
@@ -1652,6 +1659,10 @@ func runC17(c *vlib.Ctx) {
 					w2c := w2
 					w2c.Child = true
 					ws = append(ws, c17World{Type: sc.typ, BS: sc.bs, Bg: sc.bg, Writes: []c17Write{w1, w2c}})
+					// the second write carries background only: it must erase what the first one stored
+					w2e, w2ce := w2, w2c
+					w2e.Erase, w2ce.Erase = true, true
+					ws = append(ws, c17World{Type: sc.typ, BS: sc.bs, Bg: sc.bg, Writes: []c17Write{w1, w2e}}, c17World{Type: sc.typ, BS: sc.bs, Bg: sc.bg, Writes: []c17Write{w1, w2ce}})
 				}
 			}
 		}
